@@ -1,4 +1,305 @@
-/- C12 — model and specification (stub; see HACKING.md) -/
+/-
+  C12 — all cell-derived geometry and tensor transforms are mutually consistent.
+
+  Model (generic in the number type `K`; the driver runs `Float`, the theorems are about `ℝ`, witnesses `Rat`):
+    dsrmath.vol_unitcell / CELL.volume                      -> `volume`
+    dsrmath.OrthogonalMatrix.__init__  (.m, .metric_matrix) -> `orthoM`, `metricCode`
+    dsrmath.Matrix.__mul__ (Matrix: rows × rows = A·Bᵀ)      -> `mulRR`
+    dsrmath.Matrix.__mul__ (Array), OrthogonalMatrix.__mul__ -> `mulVec`
+    dsrmath.Matrix.dot (the true product), .transposed       -> `mulMM`, `transpose`
+    misc.determinante / Matrix.det, Matrix.inversed          -> `det`, `inversed`
+    misc.frac_to_cart / misc.cart_to_frac (cos α* route)     -> `fracToCartMisc`, `cartToFracMisc`
+    dsrmath.atomic_distance (cell given, no shortest_dist)   -> `atomicDistSq`, `atomicDistance`
+    CELL.astar/bstar/cstar, CELL.N                           -> `recip`, `nMat`
+    Atom.ucif / ustar / u_cart / set_ueq                     -> `ucif`, `ustar`, `ucart`, `ueqAniso`, `isoBranch`
+    Atom.is_npd (leading minors of u_cart)                   -> `npdMinors`
+        (all as repaired by fixes/C12_1, C12_2, C12_3; the code as it was: `ustarOld`, `ucartOld`, `isoBranchOld`,
+         and for is_npd the 100 unshifted QR steps of misc.qr_decomposition / misc.eigenvals: `qrDecomp`, `eigenvals`)
+  `math.cos/sin` VALUES enter as fields of `Cell` (`ca … sg`), `math.sqrt` as a function parameter; the proof
+  file states their algebraic relations as hypotheses.
+
+  Specification (code independent, everything from the metric tensor G):
+    `metric`, `quad` (xᵀ G x), `cholUpper` (the upper-triangular factor of G with positive diagonal = the
+    conventional setting), `recipSqSpec` (a*² = (G⁻¹)₀₀), `ueqSpec` (⅓ Σ Uij a*i a*j (ai·aj)), `minors`/`sylvesterPD`.
+-/
 namespace Shelx.C12
+
+structure V3 (K : Type) where
+  x : K
+  y : K
+  z : K
+deriving Repr, BEq
+
+/-- a 3×3 matrix as its three rows (Python: `Matrix.values`) -/
+structure M3 (K : Type) where
+  r0 : V3 K
+  r1 : V3 K
+  r2 : V3 K
+deriving Repr, BEq
+
+/-- the values of `math.cos(radians(·))`, `math.sin(radians(·))` of the three angles, and the lengths -/
+structure Cell (K : Type) where
+  a : K
+  b : K
+  c : K
+  ca : K
+  cb : K
+  cg : K
+  sa : K
+  sb : K
+  sg : K
+deriving Repr
+
+/-- the six U values in SHELXL order U11 U22 U33 U23 U13 U12 -/
+structure U6 (K : Type) where
+  u11 : K
+  u22 : K
+  u33 : K
+  u23 : K
+  u13 : K
+  u12 : K
+deriving Repr
+
+section generic
+variable {K : Type} [Add K] [Sub K] [Mul K] [Div K] [Neg K] [OfNat K 0] [OfNat K 1] [OfNat K 2] [OfNat K 3]
+
+/-! ### vectors and the in-house `Matrix` class -/
+
+def dot (a b : V3 K) : K := a.x * b.x + a.y * b.y + a.z * b.z
+def vsub (a b : V3 K) : V3 K := ⟨a.x - b.x, a.y - b.y, a.z - b.z⟩
+def vscale (k : K) (v : V3 K) : V3 K := ⟨k * v.x, k * v.y, k * v.z⟩
+def vdiv (v : V3 K) (k : K) : V3 K := ⟨v.x / k, v.y / k, v.z / k⟩
+def norm2 (v : V3 K) : K := dot v v
+
+def col0 (m : M3 K) : V3 K := ⟨m.r0.x, m.r1.x, m.r2.x⟩
+def col1 (m : M3 K) : V3 K := ⟨m.r0.y, m.r1.y, m.r2.y⟩
+def col2 (m : M3 K) : V3 K := ⟨m.r0.z, m.r1.z, m.r2.z⟩
+
+/-- `Matrix.transposed` -/
+def transpose (m : M3 K) : M3 K := ⟨col0 m, col1 m, col2 m⟩
+
+/-- `Matrix.__mul__(Matrix)`: entry (i,j) = Σ_k a[i][k]·b[j][k] — rows with ROWS, i.e. `A·Bᵀ` -/
+def mulRR (a b : M3 K) : M3 K :=
+  ⟨⟨dot a.r0 b.r0, dot a.r0 b.r1, dot a.r0 b.r2⟩,
+   ⟨dot a.r1 b.r0, dot a.r1 b.r1, dot a.r1 b.r2⟩,
+   ⟨dot a.r2 b.r0, dot a.r2 b.r1, dot a.r2 b.r2⟩⟩
+
+/-- `Matrix.dot(Matrix)`: rows with columns, the matrix product -/
+def mulMM (a b : M3 K) : M3 K := mulRR a (transpose b)
+
+/-- `Matrix.__mul__(Array)` (also `OrthogonalMatrix.__mul__`, `Shelxfile.frac_to_cart`) -/
+def mulVec (m : M3 K) (v : V3 K) : V3 K := ⟨dot m.r0 v, dot m.r1 v, dot m.r2 v⟩
+
+def trace (m : M3 K) : K := m.r0.x + m.r1.y + m.r2.z
+
+def one3 : M3 K := ⟨⟨1, 0, 0⟩, ⟨0, 1, 0⟩, ⟨0, 0, 1⟩⟩
+
+/-- `misc.determinante` (expansion along the first column, as coded) -/
+def det (m : M3 K) : K :=
+  m.r0.x * (m.r1.y * m.r2.z - m.r2.y * m.r1.z)
+    - m.r1.x * (m.r0.y * m.r2.z - m.r2.y * m.r0.z)
+    + m.r2.x * (m.r0.y * m.r1.z - m.r1.y * m.r0.z)
+
+/-- `Matrix.inversed`: cofactor formula as coded (m1..m9 = row-major entries) -/
+def inversed (m : M3 K) : M3 K :=
+  let d := det m
+  let m1 := m.r0.x; let m2 := m.r0.y; let m3 := m.r0.z
+  let m4 := m.r1.x; let m5 := m.r1.y; let m6 := m.r1.z
+  let m7 := m.r2.x; let m8 := m.r2.y; let m9 := m.r2.z
+  ⟨⟨(m5 * m9 - m6 * m8) / d, (m3 * m8 - m2 * m9) / d, (m2 * m6 - m3 * m5) / d⟩,
+   ⟨(m6 * m7 - m4 * m9) / d, (m1 * m9 - m3 * m7) / d, (m3 * m4 - m1 * m6) / d⟩,
+   ⟨(m4 * m8 - m5 * m7) / d, (m2 * m7 - m1 * m8) / d, (m1 * m5 - m2 * m4) / d⟩⟩
+
+/-! ### the cell -/
+
+/-- the radicand of the volume formula: `1 + 2·ca·cb·cg − ca² − cb² − cg²` -/
+def volRadicand (c : Cell K) : K := 1 + 2 * c.ca * c.cb * c.cg - c.ca * c.ca - c.cb * c.cb - c.cg * c.cg
+
+/-- `vol_unitcell` and `CELL.volume` (the same expression at both places) -/
+def volume (sqrt : K → K) (c : Cell K) : K := c.a * c.b * c.c * sqrt (volRadicand c)
+
+/-- `OrthogonalMatrix.m`, entry by entry -/
+def orthoM (sqrt : K → K) (c : Cell K) : M3 K :=
+  ⟨⟨c.a, c.b * c.cg, c.c * c.cb⟩,
+   ⟨0, c.b * c.sg, c.c * (c.ca - c.cb * c.cg) / c.sg⟩,
+   ⟨0, 0, volume sqrt c / (c.a * c.b * c.sg)⟩⟩
+
+/-- `OrthogonalMatrix.metric_matrix = self.transposed.dot(self.m)` -/
+def metricCode (sqrt : K → K) (c : Cell K) : M3 K := mulMM (transpose (orthoM sqrt c)) (orthoM sqrt c)
+
+/-- `cosastar` of misc.frac_to_cart / cart_to_frac -/
+def cosAstar (c : Cell K) : K := (c.cb * c.cg - c.ca) / (c.sb * c.sg)
+
+/-- `misc.frac_to_cart` -/
+def fracToCartMisc (sqrt : K → K) (c : Cell K) (p : V3 K) : V3 K :=
+  let cosastar := cosAstar c
+  let sinastar := sqrt (1 - cosastar * cosastar)
+  ⟨c.a * p.x + (c.b * c.cg) * p.y + (c.c * c.cb) * p.z,
+   0 + (c.b * c.sg) * p.y + (-c.c * c.sb * cosastar) * p.z,
+   0 + 0 + (c.c * c.sb * sinastar) * p.z⟩
+
+/-- `misc.cart_to_frac` (back substitution) -/
+def cartToFracMisc (sqrt : K → K) (c : Cell K) (q : V3 K) : V3 K :=
+  let cosastar := cosAstar c
+  let sinastar := sqrt (1 - cosastar * cosastar)
+  let z := q.z / (c.c * c.sb * sinastar)
+  let y := (q.y - (-c.c * c.sb * cosastar) * z) / (c.b * c.sg)
+  let x := (q.x - (c.b * c.cg) * y - (c.c * c.cb) * z) / c.a
+  ⟨x, y, z⟩
+
+/-- radicand of `atomic_distance` for the difference vector `d` -/
+def atomicDistSq (c : Cell K) (d : V3 K) : K :=
+  (c.a * d.x) * (c.a * d.x) + (c.b * d.y) * (c.b * d.y) + (c.c * d.z) * (c.c * d.z)
+    + 2 * c.b * c.c * c.ca * d.y * d.z + 2 * d.x * d.z * c.a * c.c * c.cb + 2 * d.x * d.y * c.a * c.b * c.cg
+
+/-- `atomic_distance(p1, p2, cell)` -/
+def atomicDistance (sqrt : K → K) (c : Cell K) (p1 p2 : V3 K) : K := sqrt (atomicDistSq c (vsub p1 p2))
+
+/-- `CELL.astar, bstar, cstar` -/
+def recip (sqrt : K → K) (c : Cell K) : V3 K :=
+  let v := volume sqrt c
+  ⟨c.b * c.c * c.sa / v, c.a * c.c * c.sb / v, c.a * c.b * c.sg / v⟩
+
+def diag (n : V3 K) : M3 K := ⟨⟨n.x, 0, 0⟩, ⟨0, n.y, 0⟩, ⟨0, 0, n.z⟩⟩
+
+/-- `CELL.N` -/
+def nMat (sqrt : K → K) (c : Cell K) : M3 K := diag (recip sqrt c)
+
+/-! ### the displacement-tensor chain -/
+
+/-- `Atom.set_ucif` -/
+def ucif (u : U6 K) : M3 K := ⟨⟨u.u11, u.u12, u.u13⟩, ⟨u.u12, u.u22, u.u23⟩, ⟨u.u13, u.u23, u.u33⟩⟩
+
+/-- the code before the repair: `ustar = ucif * N * N.T` with the rows×rows `*` -/
+def ustarOld (n u : M3 K) : M3 K := mulRR (mulRR u n) (transpose n)
+
+/-- the code before the repair: `u_cart = ustar * o * o.T` with the rows×rows `*` -/
+def ucartOld (m n u : M3 K) : M3 K := mulRR (mulRR (ustarOld n u) m) (transpose m)
+
+/-- repaired `Atom.ustar`: `N.dot(ucif).dot(N.T)` -/
+def ustar (n u : M3 K) : M3 K := mulMM (mulMM n u) (transpose n)
+
+/-- repaired `Atom.u_cart`: `o.m.dot(ustar).dot(o.m.T)` -/
+def ucart (m n u : M3 K) : M3 K := mulMM (mulMM m (ustar n u)) (transpose m)
+
+/-- the anisotropic branch of `Atom.set_ueq`: `u_cart.trace / 3` -/
+def ueqAniso (sqrt : K → K) (c : Cell K) (u : U6 K) : K :=
+  trace (ucart (orthoM sqrt c) (nMat sqrt c) (ucif u)) / 3
+
+def ueqAnisoOld (sqrt : K → K) (c : Cell K) (u : U6 K) : K :=
+  trace (ucartOld (orthoM sqrt c) (nMat sqrt c) (ucif u)) / 3
+
+/-- repaired `Atom.is_npd`: the three leading principal minors of `u_cart.values` as coded
+    (`u[0][0]`, `u[0][0]*u[1][1] - u[0][1]*u[1][0]`, `misc.determinante(u)`); the atom is reported
+    non-positive-definite unless all three are `> 0` -/
+def npdMinors (m : M3 K) : V3 K := ⟨m.r0.x, m.r0.x * m.r1.y - m.r0.y * m.r1.x, det m⟩
+
+/-! ### `misc.qr_decomposition`, `misc.eigenvals` (unshifted QR iteration, Gram–Schmidt as coded):
+    what `Atom.is_npd` used before the repair -/
+
+/-- one `qr_decomposition`: returns `(Q_transposed, R)`; `none` is Python's ZeroDivisionError (`norm == 0`) -/
+def qrDecomp (sqrt : K → K) (isZero : K → Bool) (m : M3 K) : Option (M3 K × M3 K) :=
+  let q0 := col0 m
+  let n0 := sqrt (norm2 q0)
+  if isZero n0 then none else
+  let q0 := vdiv q0 n0
+  let q1 := col1 m
+  let r01 := dot q0 q1
+  let q1 := vsub q1 (vscale r01 q0)
+  let n1 := sqrt (norm2 q1)
+  if isZero n1 then none else
+  let q1 := vdiv q1 n1
+  let q2 := col2 m
+  let r02 := dot q0 q2
+  let q2 := vsub q2 (vscale r02 q0)
+  let r12 := dot q1 q2
+  let q2 := vsub q2 (vscale r12 q1)
+  let n2 := sqrt (norm2 q2)
+  if isZero n2 then none else
+  let q2 := vdiv q2 n2
+  some (transpose ⟨q0, q1, q2⟩, ⟨⟨n0, r01, r02⟩, ⟨0, n1, r12⟩, ⟨0, 0, n2⟩⟩)
+
+/-- `eigenvals(matrix, iterations)`: `A ← R·Q` `iterations` times, then `(A22, A11, A00)` -/
+def eigenvals (sqrt : K → K) (isZero : K → Bool) : Nat → M3 K → Option (V3 K)
+  | 0, a => some ⟨a.r2.z, a.r1.y, a.r0.x⟩
+  | k + 1, a =>
+    match qrDecomp sqrt isZero a with
+    | none => none
+    | some (qt, r) => eigenvals sqrt isZero k (mulMM r qt)
+
+/-! ### Specification: everything from the metric tensor -/
+
+/-- the metric tensor `G_ij = a_i · a_j` -/
+def metric (c : Cell K) : M3 K :=
+  ⟨⟨c.a * c.a, c.a * c.b * c.cg, c.a * c.c * c.cb⟩,
+   ⟨c.a * c.b * c.cg, c.b * c.b, c.b * c.c * c.ca⟩,
+   ⟨c.a * c.c * c.cb, c.b * c.c * c.ca, c.c * c.c⟩⟩
+
+/-- the quadratic form `xᵀ G x` -/
+def quad (g : M3 K) (v : V3 K) : K := dot v (mulVec g v)
+
+/-- the upper-triangular `R` with positive diagonal and `RᵀR = G` (Cholesky): Cartesian axes with
+    `a` along x and `b` in the xy plane, right-handed -/
+def cholUpper (sqrt : K → K) (g : M3 K) : M3 K :=
+  let r00 := sqrt g.r0.x
+  let r01 := g.r0.y / r00
+  let r02 := g.r0.z / r00
+  let r11 := sqrt (g.r1.y - r01 * r01)
+  let r12 := (g.r1.z - r01 * r02) / r11
+  let r22 := sqrt (g.r2.z - r02 * r02 - r12 * r12)
+  ⟨⟨r00, r01, r02⟩, ⟨0, r11, r12⟩, ⟨0, 0, r22⟩⟩
+
+/-- the symmetric determinant of G written as the Gram determinant -/
+def gramDet (g : M3 K) : K :=
+  g.r0.x * g.r1.y * g.r2.z + 2 * g.r0.y * g.r0.z * g.r1.z
+    - g.r0.x * g.r1.z * g.r1.z - g.r1.y * g.r0.z * g.r0.z - g.r2.z * g.r0.y * g.r0.y
+
+/-- squares of the reciprocal axis lengths: the diagonal of `G⁻¹` -/
+def recipSqSpec (g : M3 K) : V3 K :=
+  ⟨(g.r1.y * g.r2.z - g.r1.z * g.r1.z) / gramDet g,
+   (g.r0.x * g.r2.z - g.r0.z * g.r0.z) / gramDet g,
+   (g.r0.x * g.r1.y - g.r0.y * g.r0.y) / gramDet g⟩
+
+/-- `Ueq = ⅓ Σ_ij U_ij a*_i a*_j (a_i · a_j)` (IUCr definition) -/
+def ueqSpec (g : M3 K) (n : V3 K) (u : U6 K) : K :=
+  (u.u11 * n.x * n.x * g.r0.x + u.u22 * n.y * n.y * g.r1.y + u.u33 * n.z * n.z * g.r2.z
+    + 2 * u.u23 * n.y * n.z * g.r1.z + 2 * u.u13 * n.x * n.z * g.r0.z + 2 * u.u12 * n.x * n.y * g.r0.y) / 3
+
+/-- what the code before the repair returned: the mixed terms carry `(n_i² + n_j²)/2` for `n_i n_j` -/
+def ueqOldFormula (g : M3 K) (n : V3 K) (u : U6 K) : K :=
+  (u.u11 * n.x * n.x * g.r0.x + u.u22 * n.y * n.y * g.r1.y + u.u33 * n.z * n.z * g.r2.z
+    + u.u23 * (n.y * n.y + n.z * n.z) * g.r1.z + u.u13 * (n.x * n.x + n.z * n.z) * g.r0.z
+    + u.u12 * (n.x * n.x + n.y * n.y) * g.r0.y) / 3
+
+/-- the three leading principal minors of the symmetric tensor -/
+def minors (u : U6 K) : V3 K :=
+  ⟨u.u11,
+   u.u11 * u.u22 - u.u12 * u.u12,
+   u.u11 * (u.u22 * u.u33 - u.u23 * u.u23) - u.u12 * (u.u12 * u.u33 - u.u23 * u.u13)
+     + u.u13 * (u.u12 * u.u23 - u.u22 * u.u13)⟩
+
+end generic
+
+/-! ### exact decisions on the file values (`Rat`) -/
+
+/-- Sylvester's criterion on the six file values -/
+def sylvesterPD (u : U6 Rat) : Bool :=
+  let d := minors u
+  decide (0 < d.x) && decide (0 < d.y) && decide (0 < d.z)
+
+/-- `U + t·I` -/
+def shiftU (u : U6 Rat) (t : Rat) : U6 Rat := { u with u11 := u.u11 + t, u22 := u.u22 + t, u33 := u.u33 + t }
+
+/-- the branch of the repaired `set_ueq` that returns `uvals[0]` (isotropic atom / Q-peak):
+    `uvals[0] > 0 and not any(uvals[2:])` -/
+def isoBranch (u : U6 Rat) : Bool :=
+  decide (0 < u.u11) && (u.u33 == 0 && u.u23 == 0 && u.u13 == 0 && u.u12 == 0)
+
+/-- the branch before the repair: `uvals[0] > 0 and not sum(uvals[2:])` (exact arithmetic) -/
+def isoBranchOld (u : U6 Rat) : Bool :=
+  decide (0 < u.u11) && (u.u33 + u.u23 + u.u13 + u.u12 == 0)
+
+/-- the tensor is written with six values (an anisotropic atom of the file) -/
+def anisoWritten (u : U6 Rat) : Bool := !(u.u33 == 0 && u.u23 == 0 && u.u13 == 0 && u.u12 == 0)
 
 end Shelx.C12
